@@ -5,16 +5,17 @@ import re
 import subprocess
 import sys
 
-REPO_SRC = "/repo/src/biotite"
+REPO_SRC = os.environ.get("VERIF_SRC") or "/repo/src/biotite"
 
 
 def compiled_in_sync(rel_pyx):
     """compare the .pyx lines embedded as comments in the shipped Cython .c file
     with the current .pyx text.  Returns (in_sync, checked, mismatching_lines)."""
     pyx = os.path.join(REPO_SRC, rel_pyx)
-    cfile = pyx[:-4] + ".c"
+    # the compiled module always is /repo's; the text may come from a scratch copy
+    cfile = os.path.join("/repo/src/biotite", rel_pyx)[:-4] + ".c"
     if not os.path.exists(cfile):
-        cfile = pyx[:-4] + ".cpp"
+        cfile = cfile[:-2] + ".cpp"
     if not os.path.exists(cfile):
         return None, 0, []
     src = open(pyx, encoding="utf-8").read().split("\n")
@@ -49,3 +50,18 @@ def in_subprocess(code, timeout=120):
     """run python code in a child /venv/bin/python; exit status is part of the oracle"""
     p = subprocess.run([sys.executable, "-c", code], capture_output=True, text=True, timeout=timeout)
     return p.returncode, p.stdout, p.stderr
+
+
+def engine_batch(target, batch, timeout=600):
+    """run many concrete calls of one extracted function in a single engine process"""
+    payload = json.dumps({"target": target, "batch": batch})
+    p = subprocess.run(["python3-vt", "-m", "pyvc.concrete"], input=payload, capture_output=True,
+                       text=True, cwd="/verif", timeout=timeout)
+    lines = [l for l in p.stdout.strip().split("\n") if l.startswith("{")]
+    if not lines:
+        return [{"outcome": "engine-error", "error": (p.stdout + p.stderr)[-400:]}] * len(batch)
+    return json.loads(lines[-1])["batch"]
+
+
+def finish(rep, detail):
+    print(json.dumps({"reproduced": rep, "detail": detail}))
